@@ -1,6 +1,6 @@
 (* C07 — Chunk store round trip and chunk addressing.  Only statements here. *)
 From Coq Require Import ZArith List Bool.
-From KV Require Import Base.Sx Gen.Generated Model.Chunks Proofs.ChunksP Proofs.ChunksRtP Proofs.ChunksPruneP Proofs.ChunksPrunedReadP Proofs.ChunksTopP Proofs.ChunksGenP.
+From KV Require Import Base.Sx Gen.Generated Model.Chunks Model.ChunksMulti Proofs.ChunksP Proofs.ChunksRtP Proofs.ChunksPruneP Proofs.ChunksPrunedReadP Proofs.ChunksTopP Proofs.ChunksGenP Proofs.ChunksMultiP.
 Import ListNotations.
 Open Scope Z_scope.
 
@@ -105,6 +105,93 @@ Theorem C07_block_names_distinct : forall arr chunks,
   NoDup (map (fun b => chunk_name arr (map fst b)) (blocks chunks)).
 Proof. exact block_names_distinct. Qed.
 Print Assumptions C07_block_names_distinct.
+
+(* ---- memory layout of the chunk handed to put_chunk, and the .npy object ---- *)
+
+(* Whatever the memory layout of the ndarray handed to put_chunk (C-contiguous, Fortran-contiguous such as a
+   transposed view, or arbitrarily strided), the object written has fortran_order = False and lists the LOGICAL
+   elements in C order (npy_header_and_body brings the chunk to C order: re-translated from the source at every run),
+   and decoding it (np.load / read_array) gives every element back. *)
+Theorem C07_npy_layout_round_trip : forall (A : Type) (d : A) (elem : list Z -> A) (shape : list Z) (lay : layout),
+  npy_encode elem shape lay = NpyObj false shape (map elem (enumerate shape))
+  /\ forall q, In q (enumerate shape) -> npy_decode d (npy_encode elem shape lay) q = elem q.
+Proof. exact npy_layout_top. Qed.
+Print Assumptions C07_npy_layout_round_trip.
+
+(* the reader honours the fortran_order field of objects written by other .npy writers: header and body order agree *)
+Theorem C07_npy_foreign_order : forall (A : Type) (d : A) (elem : list Z -> A) (shape : list Z) (fortran : bool) q,
+  In q (enumerate shape) -> npy_decode d (npy_foreign elem shape fortran) q = elem q.
+Proof. exact npy_foreign_top. Qed.
+Print Assumptions C07_npy_foreign_order.
+
+(* why the order matters: a header saying Fortran order over a C-ordered body (what "pass Fortran-contiguous chunks on
+   as they are" produces, the body being chunk.reshape(-1)) scrambles a 2 x 3 chunk, shape and dtype staying right *)
+Example C07_npy_order_mismatch_refuted :
+  map (npy_decode (-1) (NpyObj true [2; 3] (map (ravel [2; 3]) (enumerate [2; 3])))) (enumerate [2; 3])
+    = [0; 2; 4; 1; 3; 5]
+  /\ map (ravel [2; 3]) (enumerate [2; 3]) = [0; 1; 2; 3; 4; 5].
+Proof. vm_compute. auto. Qed.
+
+(* ---- arrays written in several parts / to several stores by ONE dask compute call ---- *)
+
+(* reading needs nothing but the blocks: ANY store holding every block of a chunking under its chunk name (however
+   and in however many parts it was written) returns the array *)
+Theorem C07_read_of_stored_blocks : forall (A : Type) (d : A) (miss : option A) (st : store A) (arr : str) (dt : Z)
+    (f : list Z -> A) (chunks : list (list Z)) (off : list Z),
+  Forall (fun cs => Forall (fun c => 0 < c) cs \/ cs = [0]) chunks ->
+  (off = [] \/ List.length off = List.length chunks) ->
+  (forall b, In b (blocks chunks) ->
+     lookup (block_key arr off b) st = Some (OChunk dt (slice_shape b) (extract f b))) ->
+  get_array d miss st arr dt chunks off = Ok (map f (enumerate (chunks_shape chunks))).
+Proof. exact read_of_stored_top. Qed.
+Print Assumptions C07_read_of_stored_blocks.
+
+(* frame: put_dask_array changes no object other than those named after its own blocks *)
+Theorem C07_put_array_frame : forall (A : Type) (st : store A) (arr : str) (dt : Z) (f : list Z -> A)
+    (chunks : list (list Z)) (off : list Z) k,
+  Forall (fun cs => Forall (fun c => 0 < c) cs \/ cs = [0]) chunks ->
+  (off = [] \/ List.length off = List.length chunks) ->
+  ~ In k (map (block_key arr off) (blocks chunks)) ->
+  lookup k (fst (put_array st arr dt f chunks off)) = lookup k st.
+Proof. exact put_frame_top. Qed.
+Print Assumptions C07_put_array_frame.
+
+(* Any number of put_dask_array graphs -- parts of one array at different offsets, the same array into several
+   stores, several arrays -- evaluated by ONE dask compute call (dask merges the graphs by task name; which request
+   attributes the name contains is re-translated from the source at every run), provided the requests differ in
+   (store, array name, offset) and write disjoint sets of objects: afterwards every part reads back identical, also
+   when all the reads are again evaluated by one compute call.  Any element type, stores, prior contents. *)
+Theorem C07_multi_part_round_trip : forall (A : Type) (d : A) (miss : option A) (w : world A) (reqs : list (preq A)),
+  Forall (fun r => Forall (fun cs => Forall (fun c => 0 < c) cs \/ cs = [0]) (q_chunks r)
+                   /\ (q_off r = [] \/ List.length (q_off r) = List.length (q_chunks r))) reqs ->
+  pairwise (fun a b => (q_store a, q_arr a, q_off a) <> (q_store b, q_arr b, q_off b)) reqs ->
+  pairwise (fun a b => disjoint (targets a) (targets b)) reqs ->
+  compute_gets d miss (compute_puts w reqs) (map greq_of reqs)
+    = map (fun r => Ok (map (q_f r) (enumerate (chunks_shape (q_chunks r))))) reqs.
+Proof. exact multi_part_top. Qed.
+Print Assumptions C07_multi_part_round_trip.
+
+(* several get_dask_array graphs (any stores, names, chunkings, offsets, index slices) evaluated by one compute call
+   give what each of them gives on its own: graphs sharing a task name compute the same thing *)
+Theorem C07_compute_gets_independent : forall (A : Type) (d : A) (miss : option A) (w : world A) (reqs : list greq),
+  compute_gets d miss w reqs = map (get_one d miss w) reqs.
+Proof. exact compute_gets_top. Qed.
+Print Assumptions C07_compute_gets_independent.
+
+(* non-vacuity: two halves with identical chunk layout put at offsets 0 and 4 into store 0 and the first half mirrored
+   into store 1 under the same name and offset; the whole array is read with the full chunking, the mirror on its own *)
+Example C07_multi_part_example :
+  let mk s src base off : preq Z :=
+    {| q_store := s; q_arr := [120]; q_dt := 7; q_src := src; q_f := (fun p => base + nth 0 p 0);
+       q_chunks := [[2; 2]]; q_off := [off] |} in
+  let w := compute_puts [[]; []] [mk 0%nat 1 0 0; mk 0%nat 2 4 4; mk 1%nat 1 0 0] in
+  compute_gets (-1) None w
+    [ {| g_store := 0%nat; g_arr := [120]; g_dt := 7; g_chunks := [[2; 2; 2; 2]]; g_off := []; g_index := [] |};
+      {| g_store := 1%nat; g_arr := [120]; g_dt := 7; g_chunks := [[2; 2]]; g_off := [0]; g_index := [] |};
+      {| g_store := 0%nat; g_arr := [120]; g_dt := 7; g_chunks := [[2; 2; 2; 2]]; g_off := [];
+         g_index := [(Some 3, Some 6)] |} ]
+  = [Ok [0; 1; 2; 3; 4; 5; 6; 7]; Ok [0; 1; 2; 3]; Ok [3; 4; 5]].
+Proof. vm_compute. reflexivity. Qed.
 
 (* ---- pruned read: get_dask_array(..., index = unit-step slices) ---- *)
 
